@@ -335,6 +335,9 @@ impl Out {
 /// Per-history bookkeeping for the classification of findings
 #[derive(Default)]
 struct Marks { roll_shrunk: BTreeSet<String>, dropped_since_settle: bool, limited_left: bool,
+    /// (parent, child) pairs for which the revocation requests of a given-up class stopped at a refused one while another
+    /// was still to be sent (candidate finding, see --revstop)
+    revstop: BTreeSet<(String, String)>,
     /// default mode: the generator keeps children with an open certificate request away from parents that can no
     /// longer serve it (candidate finding F02d, see --stuck): such children are synchronised before anything
     /// changes what their parent can give them
@@ -362,6 +365,16 @@ fn roa_outside(ca: &Value) -> bool {
 
 /// Emits one CCmd case per command stored for each CA during the API call.
 fn emit_cmd_cases(sys: &Sys, it: &mut It, before: &Snap, after: &Snap, op: &Value, hist: u64, marks: &mut Marks, out: &Mutex<Out>) {
+    let mut refused_revokes: Vec<(String, String, String)> = Vec::new();     // (parent CA, child, key)
+    let mut drops: Vec<(String, String, Vec<String>)> = Vec::new();          // (child CA, parent, keys of the requests in order)
+    emit_cmd_cases_inner(sys, it, before, after, op, hist, marks, out, &mut refused_revokes, &mut drops);
+    for (x, p, keys) in drops {
+        if keys.len() >= 2 && refused_revokes.iter().any(|(pp, xx, k)| *pp == p && *xx == x && *k == keys[0]) { marks.revstop.insert((p, x)); }
+    }
+}
+#[allow(clippy::too_many_arguments)]
+fn emit_cmd_cases_inner(sys: &Sys, it: &mut It, before: &Snap, after: &Snap, op: &Value, hist: u64, marks: &mut Marks, out: &Mutex<Out>,
+    refused_revokes: &mut Vec<(String, String, String)>, drops: &mut Vec<(String, String, Vec<String>)>) {
     for h in CAS {
         let (Some(Some(pre)), Some(Some(post))) = (before.get(h), after.get(h)) else { continue };
         let (v0, v1) = (pre.version(), post.version());
@@ -399,6 +412,7 @@ fn emit_cmd_cases(sys: &Sys, it: &mut It, before: &Snap, after: &Snap, op: &Valu
                 *out.lock().unwrap().shrink_hist.entry(format!("{shrink}{}{}", if ncerts > 0 { "+children" } else { "" }, if nsusp > 0 { "+suspended" } else { "" })).or_default() += 1;
             }
             if ty == "drop_resource_class" { marks.dropped_since_settle = true; }
+            if ty == "child_revoke_key" && is_err { refused_revokes.push((h.to_string(), jstr(&scv["details"]["child"]), jstr(&scv["details"]["revoke_req"]["key"]))); }
             if ty == "key_roll_activate" && !is_err {
                 // activation under a new certificate that is smaller than the current one?
                 for rc in pre_j["resources"].as_object().map(|o| o.values().collect::<Vec<_>>()).unwrap_or_default() {
@@ -423,6 +437,7 @@ fn emit_cmd_cases(sys: &Sys, it: &mut It, before: &Snap, after: &Snap, op: &Valu
                     if rc.is_null() { continue }
                     let reqs: Vec<String> = e["revoke_requests"].as_array().map(|a| a.iter().map(|r| format!("({}, {})", it.rcn(&jstr(&r["class_name"])), it.key(&jstr(&r["key"])))).collect()).unwrap_or_default();
                     let differs = rc["parent_rc_name"].as_str() != Some(name.as_str());
+                    drops.push((h.to_string(), jstr(&e["parent"]), e["revoke_requests"].as_array().map(|a| a.iter().map(|r| jstr(&r["key"])).collect()).unwrap_or_default()));
                     let rec = json!({"kind": "droprev", "history": hist, "ca": h, "op": op, "command": ty, "class": {"kind": "droprev"}, "local_class_name": name,
                         "parent_class_name": rc["parent_rc_name"], "key_state": keystate_tag(rc), "revoke_requests": e["revoke_requests"]});
                     o.push(format!("CDropRev {} {}", dclass_term(it, rc), coq_list(&reqs)), rec, format!("droprev|{}|{differs}", keystate_tag(rc)), true);
@@ -481,7 +496,7 @@ fn do_sync(sys: &Sys, it: &mut It, ph: &str, xh: &str, op: &Value, hist: u64, ma
 }
 
 /// One CHeld case per (parent, child) pair: what the parent holds and publishes for the child against what the child has.
-fn emit_held(sys: &Sys, it: &mut It, only: Option<(&str, &str)>, stage: &str, op: &Value, hist: u64, out: &Mutex<Out>) {
+fn emit_held(sys: &Sys, it: &mut It, only: Option<(&str, &str)>, stage: &str, op: &Value, hist: u64, marks: &Marks, out: &Mutex<Out>) {
     let snap = snapshot(sys);
     for (p, x) in PAIRS {
         if let Some(o) = only { if o != (p, x) { continue } }
@@ -499,7 +514,9 @@ fn emit_held(sys: &Sys, it: &mut It, only: Option<(&str, &str)>, stage: &str, op
         let has: Vec<Value> = xj["resources"].as_object().map(|o| o.iter().filter(|(_, rc)| rc["parent_handle"].as_str() == Some(p)).map(|(n, rc)| json!({"class": n,
             "parent_class_name": rc["parent_rc_name"], "key_state": keystate_tag(rc)})).collect()).unwrap_or_default();
         let nx = has.len();
-        let rec = json!({"kind": "held", "history": hist, "parent": p, "child": x, "op": op, "stage": stage, "class": {"kind": "held"},
+        let mut class = json!({"kind": "held"});
+        if marks.revstop.contains(&(p.to_string(), x.to_string())) { class["revocation_stopped_at_refused_request"] = json!(true); }
+        let rec = json!({"kind": "held", "history": hist, "parent": p, "child": x, "op": op, "stage": stage, "class": class,
             "entitlement": pj["children"][x]["resources"], "child_used_keys": pj["children"][x]["used_keys"], "parent_holds": held, "child_classes": has});
         out.lock().unwrap().push(term, rec, format!("held|{p}|{x}|{nx}|{stage}"), true);
     }
@@ -568,7 +585,7 @@ fn settle(sys: &Sys, it: &mut It, op: &Value, hist: u64, marks: &mut Marks, out:
     *o.settle_rounds.entry(rounds.to_string()).or_default() += 1;
     o.push(term, rec, format!("settle|{rounds}|{extra}"), true);
     drop(o);
-    emit_held(sys, it, None, "settle", op, hist, out);
+    emit_held(sys, it, None, "settle", op, hist, marks, out);
 }
 
 //------------------------------------------------------------------ the protocol child `l`
@@ -635,13 +652,13 @@ fn scripted(sys: &Sys, it: &mut It, hist: u64, marks: &mut Marks, out: &Mutex<Ou
             sync2!(&op, "b", "c");           // c receives the smaller certificate: e's certificate shrinks in that command
             let e_cert = sys.ca("c").ok().map(|c| { let j = to_json(&c); j["resources"].as_object().map(|o| o.values().flat_map(|rc| rc["certificates"]["issued"].as_object().map(|m| m.values().map(|c| res_json_mask(&c["resources"])).collect::<Vec<_>>()).unwrap_or_default()).fold(0, |a, b| a | b)).unwrap_or(0) }).unwrap_or(0);
             note(format!("holds_all: child certificate after the parent shrank {}", if e_cert == less { "= parent's new certificate" } else { "DIFFERS from parent's new certificate" }));
-            emit_held(sys, it, Some(("c", "e")), "holds_all:parent-shrunk", &op, hist, out);
+            emit_held(sys, it, Some(("c", "e")), "holds_all:parent-shrunk", &op, hist, marks, out);
             sync2!(&op, "c", "e");
             let _ = step!(&op, sys.update_child_resources("b", "c", mask_to_rs(all_c)));
             sync2!(&op, "b", "c");
             let _ = step!(&op, sys.update_child_resources("c", "e", mask_to_rs(e0)));
             sync2!(&op, "c", "e");
-            emit_held(sys, it, Some(("c", "e")), "holds_all:restored", &op, hist, out);
+            emit_held(sys, it, Some(("c", "e")), "holds_all:restored", &op, hist, marks, out);
         } else { note("holds_all: skipped".into()); }
     }
 
@@ -667,28 +684,51 @@ fn scripted(sys: &Sys, it: &mut It, hist: u64, marks: &mut Marks, out: &Mutex<Ou
         sync2!(&op, "d", x);
         let _ = step!(&op, sys.update_child_resources("d", x, mask_to_rs(r0 | r1)));
         sync2!(&op, "d", x);
-        emit_held(sys, it, Some(("d", x)), "both-classes", &op, hist, out);
+        emit_held(sys, it, Some(("d", x)), "both-classes", &op, hist, marks, out);
         for round in 1..=2 {
             let local = local_class_name(sys, x, "d", &c1);
             note(format!("{x}: loss {round} of the class the parent calls {c1}: local name {}", match &local { Some(l) if *l == c1 => "= parent's name", Some(_) => "differs from parent's name", None => "NO SUCH CLASS" }));
             let _ = step!(&op, sys.update_child_resources("d", x, mask_to_rs(r0)));
             sync2!(&op, "d", x);
             note(format!("{x}: after loss {round}: class {}", if local_class_name(sys, x, "d", &c1).is_none() { "dropped" } else { "STILL THERE" }));
-            emit_held(sys, it, Some(("d", x)), &format!("lost-{round}"), &op, hist, out);
+            emit_held(sys, it, Some(("d", x)), &format!("lost-{round}"), &op, hist, marks, out);
             let _ = step!(&op, sys.update_child_resources("d", x, mask_to_rs(r0 | r1)));
             sync2!(&op, "d", x);
             note(format!("{x}: after regain {round}: class {}", if local_class_name(sys, x, "d", &c1).is_some() { "back" } else { "MISSING" }));
-            emit_held(sys, it, Some(("d", x)), &format!("regained-{round}"), &op, hist, out);
+            emit_held(sys, it, Some(("d", x)), &format!("regained-{round}"), &op, hist, marks, out);
         }
-        if let Some(pp) = other_parent { emit_held(sys, it, Some((pp, x)), "other-parent", &op, hist, out); }
+        if let Some(pp) = other_parent { emit_held(sys, it, Some((pp, x)), "other-parent", &op, hist, marks, out); }
     }
     // in a quarter of the histories `g` then leaves the parent `d` altogether (revocations for every class under it)
     if hist % 4 == 3 {
         let op = json!({"op": "scripted", "script": "parent_removed", "parent": "d", "child": "g"});
         let _ = step!(&op, sys.parent_remove("g", "d"));
-        emit_held(sys, it, Some(("d", "g")), "parent-removed", &op, hist, out);
+        emit_held(sys, it, Some(("d", "g")), "parent-removed", &op, hist, marks, out);
         note("g: parent d removed".into());
     }
+}
+
+/// --revstop 1 (not in the default run): directed probe of a candidate finding. The revocation requests of a given-up
+/// class are sent one by one and the exchange ends at the first one the parent refuses (manager.rs
+/// send_revoke_requests_rfc6492; a parent in the same instance refuses with a Rust error): a class in RollNew whose
+/// NEW key's certificate the parent has already removed never gets the CURRENT key's certificate revoked.
+fn revstop_probe(sys: &Sys, it: &mut It, hist: u64, marks: &mut Marks, out: &Mutex<Out>) {
+    let op = json!({"op": "revstop_probe", "parent": "b", "child": "c"});
+    macro_rules! step { ($f:expr) => {{ let b = snapshot(sys); let r: Result<(), String> = $f.map_err(|e| e.to_string()); emit_cmd_cases(sys, it, &b, &after(sys), &op, hist, marks, out); r }}; }
+    for _ in 0..2 { let _ = do_sync(sys, it, "b", "c", &op, hist, marks, out); }
+    let ent = cur_ent(sys, "b", "c");
+    let bits: Vec<u64> = (0..8).filter(|i| ent & (1 << i) != 0).collect();
+    if bits.len() < 2 { return }
+    let one = atoms(1 << bits[0]);
+    let _ = step!(sys.keyroll_init("c"));
+    let _ = step!(sys.update_child_resources("b", "c", mask_to_rs(one)));
+    let _ = do_sync(sys, it, "b", "c", &op, hist, marks, out);                  // the new key is certified with the smaller entitlement
+    let eb = cur_ent(sys, "a", "b");
+    let _ = step!(sys.update_child_resources("a", "b", mask_to_rs(eb & !one)));  // b loses exactly that
+    for _ in 0..2 { let _ = do_sync(sys, it, "a", "b", &op, hist, marks, out); }
+    for _ in 0..3 { let _ = do_sync(sys, it, "b", "c", &op, hist, marks, out); } // nothing listed any more: c gives the class up
+    emit_held(sys, it, Some(("b", "c")), "revstop:class-given-up", &op, hist, marks, out);
+    *out.lock().unwrap().script_hist.entry(format!("revstop: c's class under b {}", if local_class_name(sys, "c", "b", "0").is_none() { "given up" } else { "still there" })).or_default() += 1;
 }
 
 //------------------------------------------------------------------ one history
@@ -737,6 +777,7 @@ fn run_history(args: &Args, hist: u64, seed: u64, n_ops: u64, out: &Mutex<Out>) 
     }
     let mut pr = Proto { id_key: pr_id, keys: Vec::new(), parent: "b" };
     if args.get_u64("scripted", 1) == 1 { scripted(&sys, &mut it, hist, &mut marks, out); }
+    if args.get_u64("revstop", 0) == 1 { revstop_probe(&sys, &mut it, hist, &mut marks, out); }
     let mut roas: BTreeMap<&str, Vec<String>> = BTreeMap::new();
     let mut since_settle = 0;
 
@@ -1066,7 +1107,7 @@ fn main() {
         "rule": "histories on TA->a->{b->{c->e,d,l},d->{f,g},g} in one in-process runtime; scripted in every history right after the set-up: a child entitled to everything its parent holds while the parent shrinks at the grandparent to a strict subset; under the two-class parent d the entitlement of f in one class taken away / synced / given back / synced / taken away again / synced (class names aligned in even, crossed in odd histories; the regained class has a fresh local name), the same for g which has the parent a first (its local class names never coincide with d's), in a quarter of the histories g then removes the parent d; then random: entitlement changes at every level (grow, shrink, partial, family-partial, nothing, regain, disjoint), syncs, key-roll steps, suspend/unsuspend, ROA changes, RFC 6492 list/issue(with request limits)/revoke by a harness-built child, republish/repo sync/ASPA; cases: one per stored command (real state before/after that command, published child certificates decoded after the last command of an API call), one per sync-driver call under a single-class parent (parent class, child details, child class before/after), one per given-up class (class and revocation requests of the stored event), one per settle run, one per parent/child pair at every settle and scripted checkpoint (whole parent, its publication, whole child); non-trivial = every case; distinct = distinct (kind, command type, error flag, key states before, finding class) resp. (child key state, open request, suspended, error, commands stored) resp. (rounds, extra) resp. (key state, local name differs from parent's) resp. (pair, number of child classes, stage)",
         "op_distribution": o.op_hist, "command_distribution": o.cmd_hist, "error_distribution": o.err_hist, "kind_distribution": o.kind_hist,
         "received_cert_distribution": o.shrink_hist, "settle_rounds_distribution": o.settle_rounds, "scripted_distribution": o.script_hist,
-        "modes": {"limits": args.get_u64("limits", 0), "rollshrink": args.get_u64("rollshrink", 0), "stuck": args.get_u64("stuck", 0)},
+        "modes": {"limits": args.get_u64("limits", 0), "rollshrink": args.get_u64("rollshrink", 0), "stuck": args.get_u64("stuck", 0), "revstop": args.get_u64("revstop", 0)},
         "samples": o.samples, "impl_failures": o.impl_failures,
     }));
     println!("c02: {} cases from {} histories", o.w.total, n_hist);
